@@ -14,7 +14,7 @@ import time
 from .. import core
 
 MIRI_DIR = os.path.join(core.ROOT, "miri")
-LITMUS = ["litmus_get", "litmus_tick", "litmus_restart", "litmus_alloc", "litmus_stream"]
+LITMUS = ["litmus_get", "litmus_tick", "litmus_restart", "litmus_alloc", "litmus_stream", "litmus_extend"]
 
 
 def run_miri(ctx, seeds):
